@@ -227,6 +227,11 @@ func workerMain(t *testing.T) {
 				continue // enough distinct reports from this worker
 			}
 			tr := rc.ToTrace(v)
+			if p.NondetReplay != nil && p.NondetReplay(rc) {
+				tr.Mode, tr.J, tr.Steps = "generate", j, nil
+				emit(workerMsg{T: "viol", J: j, Seed: seed, Trace: tr})
+				continue
+			}
 			tr = Shrink(t, p, tr, 40*time.Second)
 			// final replay with log kept, for the replay file
 			rc2, v2 := ReplayTrace(t, p, tr, true)
@@ -588,7 +593,7 @@ func runnerMain(t *testing.T) {
 }
 
 func fatalKind(s string) string {
-	for _, k := range []string{"stack overflow", "out of memory", "all goroutines are asleep", "concurrent map", "watchdog"} {
+	for _, k := range []string{"DATA RACE", "stack overflow", "out of memory", "all goroutines are asleep", "concurrent map", "watchdog"} {
 		if strings.Contains(s, k) {
 			return k
 		}
